@@ -213,6 +213,12 @@ variable {α : Type} [RealLike α] [Ops α]
 
 def anyLe0 (l : List α) : Bool := l.any fun x => le x 0.0
 
+/-- `scipy.optimize.least_squares(…, x0 = 1.0, bounds = (lo, hi))` as called by `invert_function*`:
+    the initial guess is the constant `1.0`; SciPy raises `ValueError` when `lo ≥ hi` or when the
+    guess is outside `[lo, hi]` (finding F9: limits that do not contain 1.0 cannot be used). -/
+def guessOutside (lo hi : α) : Option Err :=
+  if le hi lo || lt 1.0 lo || lt hi 1.0 then some .value else none
+
 /-- the `if Lp <= 0 or … : raise ValueError` guards -/
 def Kind.check : Kind → List α → Option Err
   | .fOff, _ | .dOff, _ => none
@@ -221,8 +227,11 @@ def Kind.check : Kind → List α → Option Err
   | .emsF, [Lp, Lc, St, kT] | .emsD, [Lp, Lc, St, kT] | .odijkD, [Lp, Lc, St, kT]
   | .odijkF, [Lp, Lc, St, kT] | .efjcD, [Lp, Lc, St, kT] =>
       if anyLe0 [Lp, Lc, St, kT] then some .value else none
-  | .twlcD, [Lp, Lc, St, _, _, _, _, kT] | .twlcF, [Lp, Lc, St, _, _, _, _, kT] =>
+  | .twlcD, [Lp, Lc, St, _, _, _, _, kT] =>
       if anyLe0 [Lp, Lc, St, kT] then some .value else none
+  | .twlcF, [Lp, Lc, St, C, g0, g1, _, kT] =>
+      if anyLe0 [Lp, Lc, St, kT] then some .value
+      else guessOutside (0.0 : α) (twlcFmax St C g0 g1)
   | _, _ => some .type
 
 def Kind.val (S : Solver α) : Kind → α → List α → α
@@ -322,7 +331,10 @@ def check : M α → List α → Option Err
       | some e => some e
       | none => r.check (route all r.params v)
   | off m, v => m.check (route (off m).params m.params v)
-  | inv m _ _ _, v => m.check v
+  | inv m lo hi _, v =>
+      match m.check v with
+      | some e => some e
+      | none => guessOutside lo hi
 
 /-- `Model._raw_call(independent, param_vector)` -/
 def val (S : Solver α) : M α → α → List α → α
@@ -542,9 +554,13 @@ def handle : List String → Option String
   | ["c12.eval", e, env, xs] => do
       let m ← parseExpr e
       let env ← listOf? binding? env
-      let xs ← floatList? xs
       if !(m.wf && finiteLimits m) then some "ValueError"
-      else match lookupAll m.params env with
+      else if xs.startsWith "[[" then
+        -- `independent.ndim > 1` is rejected before anything else is looked at
+        (listListOf? float? ((xs.drop 1).dropEnd 1).toString).map fun _ => "TypeError"
+      else
+      let xs ← floatList? xs
+      match lookupAll m.params env with
         | none => some "KeyError"
         | some v =>
           match m.check v with
